@@ -29,6 +29,9 @@ MUTATORS = ("set", "set_parameters", "addpar", "set_variable_values", "update_yo
 HARVEST = []
 
 
+TRUTH_ASKED = []
+
+
 class World:
     """one evaluator + file system + helpers to drive the class"""
 
@@ -36,6 +39,9 @@ class World:
         self.mod = mod
         self.ev = ObjEvaluator(mod, max_depth=10)
         self.ev.literals_met = HARVEST          # constants the code distinguishes an unknown word from (shared by all worlds)
+        # the truth value of a stored number (`number or text`, `if value:`): the generic number is not zero; that the question was
+        # asked is recorded, and the zero class gets its own scenarios (C19:coerce:zero-*)
+        self.ev.number_truth_policy = lambda r, node: (TRUTH_ASKED.append(getattr(node, "lineno", 0)), True)[1]
         self.fs = FileSystem(self.ev)
 
     def new(self, **kw):
@@ -283,6 +289,18 @@ def run(ctx):
         ctx.check(kind == "ok" and same(stt.get("kx"), want) and same(stt.get("ky"), va), "C19:coerce:%s" % name,
                   "for a %s value the store receives %s, expected %s (outcome %s)" % (name, okey(stt.get("kx")), okey(want), (kind, exc)),
                   where("dumbtypecheck"), sample={"case": name, "stored": okey(stt.get("kx"))})
+    # ---- the zero class: wherever the code takes the truth value of a number, zero is a case of its own
+    if TRUTH_ASKED:
+        for name, (val, want) in {"zero-float": (SStr(["0.0", "\n"]), Rat.const(0)), "zero-int": (SStr(["0", "\n"]), Rat.const(0)),
+                                  "zero-negative": (SStr(["-0.0", "\n"]), Rat.const(0)), "zero-number": (Rat.const(0), Rat.const(0))}.items():
+            w = World(mod)
+            p = w.new(kx=val, ky=va)
+            kind, exc = w.outcome(p, "dumbtypecheck")
+            stt = store_of(p)
+            got = stt.get("kx")
+            ctx.check(kind == "ok" and isinstance(got, Rat) and same(got, want) and same(stt.get("ky"), va), "C19:coerce:%s" % name,
+                      "the code takes the truth value of a number (line %s): for the value %s the store receives %s, expected the number 0 (outcome %s)"
+                      % (sorted(set(TRUTH_ASKED))[:3], okey(val), okey(got), (kind, exc)), where("dumbtypecheck"))
     # ---- the words the code itself singles out (keys of a look-up table, members of a tuple it tests a value against): the
     # generic word above is none of them, so each gets its own scenario -- as a value it is still a blank-free non-numeric
     # string and must be stored, written and read back unchanged
